@@ -10,8 +10,8 @@ def prebuild(repo):
 def spec(tier, seed, repo):
     quick = tier == "quick"
     return dict(
-        stages=[stage("w_c17", repo, nshards=16, case_timeout=300 if quick else 1200,
-                      total_timeout=1800 if quick else 7200)],
+        stages=[stage("w_c17", repo, nshards=16, case_timeout=900 if quick else 2400,
+                      total_timeout=3600 if quick else 14400)],
         level="exploration",
         rule="two-party: one case = one (part, role of the observed library side, strategy or mutated line, batch) "
              "containing several Flip_twoparty runs over line channels: library vs library (agreement, sum of the "
